@@ -8,6 +8,7 @@ package c20
 
 import (
 	"bytes"
+	"crypto/sha256"
 	"fmt"
 	"sort"
 	"strings"
@@ -626,65 +627,77 @@ func searchBase(r *ev.Run, base *Base, maxDepth int, pool *workPool, deadline ti
 		r.Violate(root.finding.Sig, root.finding.What, detailOf(base, nil))
 		return st
 	}
-	seen := map[string]bool{string(root.out): true}
+	seen := map[[16]byte]struct{}{stateKey(root.out): {}}
 	st.States = 1
 	frontier := [][]int{nil}
+	nops := len(base.Ops)
+	const chunk = 1 << 15 // transitions executed before their results are merged and dropped
+	const maxStates = 4 << 20
 	for depth := 0; depth < maxDepth && len(frontier) > 0; depth++ {
-		type task struct {
-			hist []int
-			res  stepResult
-		}
-		tasks := make([]task, 0, len(frontier)*len(base.Ops))
-		for _, h := range frontier {
-			for op := range base.Ops {
+		var next [][]int
+		total := len(frontier) * nops
+		results := make([]stepResult, min(chunk, total))
+		for off := 0; off < total; off += chunk {
+			n := min(chunk, total-off)
+			var capped atomic.Bool
+			pool.run(n, func(i int) {
+				if capped.Load() {
+					return
+				}
+				if i%64 == 0 && time.Now().After(deadline) {
+					capped.Store(true)
+					return
+				}
+				t := off + i
+				h := frontier[t/nops]
 				nh := make([]int, len(h)+1)
 				copy(nh, h)
-				nh[len(h)] = op
-				tasks = append(tasks, task{hist: nh})
+				nh[len(h)] = t % nops
+				results[i] = Replay(base, nh)
+			})
+			if capped.Load() || len(seen) > maxStates {
+				st.Capped = true
+				return st
 			}
-		}
-		var capped atomic.Bool
-		pool.run(len(tasks), func(i int) {
-			if capped.Load() {
-				return
+			for i := 0; i < n; i++ {
+				res := &results[i]
+				if !res.enabled {
+					continue
+				}
+				t := off + i
+				st.Transitions++
+				last := base.Ops[t%nops]
+				if res.finding != nil {
+					h := append(append([]int(nil), frontier[t/nops]...), t%nops)
+					outcomes.add("violated:" + res.finding.Sig)
+					r.Violate(res.finding.Sig, fmt.Sprintf("base %s, history %v: %s", base.Name, detailOf(base, h).Text, res.finding.What), detailOf(base, h))
+					continue
+				}
+				k := stateKey(res.out)
+				res.out = nil
+				if _, ok := seen[k]; ok {
+					outcomes.add("ok:" + last.Kind + ":state-seen-before")
+					continue
+				}
+				outcomes.add("ok:" + last.Kind + ":new-state")
+				seen[k] = struct{}{}
+				st.States++
+				if depth+1 < maxDepth {
+					next = append(next, append(append(make([]int, 0, len(frontier[t/nops])+1), frontier[t/nops]...), t%nops))
+				}
 			}
-			if i%64 == 0 && time.Now().After(deadline) {
-				capped.Store(true)
-				return
-			}
-			tasks[i].res = Replay(base, tasks[i].hist)
-		})
-		if capped.Load() {
-			st.Capped = true
-			return st
-		}
-		var next [][]int
-		for i := range tasks {
-			t := &tasks[i]
-			if !t.res.enabled {
-				continue
-			}
-			st.Transitions++
-			last := base.Ops[t.hist[len(t.hist)-1]]
-			if t.res.finding != nil {
-				outcomes.add("violated:" + t.res.finding.Sig)
-				r.Violate(t.res.finding.Sig, fmt.Sprintf("base %s, history %v: %s", base.Name, detailOf(base, t.hist).Text, t.res.finding.What), detailOf(base, t.hist))
-				continue
-			}
-			k := string(t.res.out)
-			if seen[k] {
-				outcomes.add("ok:" + last.Kind + ":state-seen-before")
-				continue
-			}
-			outcomes.add("ok:" + last.Kind + ":new-state")
-			seen[k] = true
-			st.States++
-			next = append(next, t.hist)
 		}
 		st.Depth = depth + 1
 		frontier = next
 	}
 	return st
+}
+
+// stateKey identifies a state -- the output text -- by a 128-bit hash of it.
+func stateKey(out []byte) (k [16]byte) {
+	h := sha256.Sum256(out)
+	copy(k[:], h[:16])
+	return
 }
 
 // workPool runs index ranges over a fixed number of goroutines.
